@@ -73,8 +73,10 @@ def design_level(ctx):
         mains = [("MC_Text(faithful;W124,L<=3,S<=2,5cp)", main)]
     else:
         full = [65, 233, 65535, 55296, 56320, 65536, 1114111]
-        mains = [("MC_Text(faithful;W%d,L<=4,S<=3,7cp)" % w, dict(widths=[w], maxl=4, maxs=3, cpset=full))
+        mains = [("MC_Text(faithful;W%d,L<=4,S<=2,7cp)" % w, dict(widths=[w], maxl=4, maxs=2, cpset=full))
                  for w in (1, 2, 4)]
+        mains += [("MC_Text(faithful;W%d,L<=3,S<=3,7cp)" % w, dict(widths=[w], maxl=3, maxs=3, cpset=full))
+                  for w in (2, 4)]
         mains += [("MC_Text(faithful;W%d,L<=5,S<=2,5cp)" % w,
                    dict(widths=[w], maxl=5, maxs=2, cpset=[65, 55296, 56320, 65536, 65535])) for w in (2, 4)]
     jobs = []
@@ -84,9 +86,9 @@ def design_level(ctx):
     bigfix = mains[0][1] if quick else dict(widths=[1, 2, 4], maxl=4, maxs=2, cpset=[65, 233, 55296, 56320, 65536])
     jobs.append(("MC_Text(fixed)", dict(module="Text", workers=3, timeout=2400, cfg_text=mc_cfg(
         "fixed", invs=INV_ALWAYS + ["TerminatorWritten"], **bigfix))))
-    jobs.append(("expect:terminator", dict(module="Text", workers=2, cfg_text=mc_cfg(
+    jobs.append(("expect:terminator", dict(module="Text", workers=1, cfg_text=mc_cfg(
         "faithful", invs=["TerminatorWritten"], **small))))
-    jobs.append(("expect:lonepair", dict(module="Text", workers=2, cfg_text=mc_cfg(
+    jobs.append(("expect:lonepair", dict(module="Text", workers=1, cfg_text=mc_cfg(
         "faithful", invs=["RoundTripAll"], **small))))
     for v in ("nocount16", "alwaysterm", "lastpair"):
         jobs.append(("sanity:" + v, dict(module="Text", workers=2, cfg_text=mc_cfg(
@@ -106,7 +108,7 @@ def design_level(ctx):
     # the two expected design-level findings must be exactly the recorded classes
     r = res["expect:terminator"]
     st = counterexample_states(r.out)
-    if r.invariant_violated != ["TerminatorWritten"] or not st or st[-1]["W"] not in (2, 4):
+    if set(r.invariant_violated) != {"TerminatorWritten"} or not st or st[-1]["W"] not in (2, 4):
         raise core.MachineryError("faithful model: expected TerminatorWritten to fail for a wide type only\n" + r.out[-1500:])
     ctx.cov["design_finding_terminator"] = {"W": st[-1]["W"], "old": list(st[-1]["old"]), "op": st[-1]["op"],
                                             "mem": list(st[-1]["mem"])}
@@ -114,7 +116,7 @@ def design_level(ctx):
     st = counterexample_states(r.out)
     s = list(st[-1]["op"]["s"]) if st else []
     lone = any(0xD800 <= a <= 0xDBFF and 0xDC00 <= b <= 0xDFFF for a, b in zip(s, s[1:]))
-    if r.invariant_violated != ["RoundTripAll"] or not st or st[-1]["W"] != 2 or not lone:
+    if set(r.invariant_violated) != {"RoundTripAll"} or not st or st[-1]["W"] != 2 or not lone:
         raise core.MachineryError("faithful model: expected RoundTripAll to fail only for W=2 with a lone pair\n" + r.out[-1500:])
     ctx.cov["design_finding_lonepair"] = {"W": 2, "s": s, "mem": list(st[-1]["mem"])}
     for v in ("nocount16", "alwaysterm", "lastpair"):
@@ -207,6 +209,15 @@ def replay_graph(ctx, lab, variant, recs):
         Ts = types_of(lab, W)
         for _act, _args, dst in g.succ(sid):
             want = g.states[dst]                # the operation is recorded in the successor's `op`
+            if want["op"]["k"] == "set":         # item assignment: C16's subject, compared with the model only
+                i, c = want["op"]["decl"] - 1, want["op"]["s"][0]
+                T = rng.choice(Ts)
+                about("setitem", T, mem, i, c)
+                got = lab.setitem(T, mem, i, c)
+                nedges += 1
+                if got != list(want["mem"]):
+                    div.append("%s %r [%d] = unit %d: %r, model %r" % (T, mem, i, c, got, list(want["mem"])))
+                continue
             if want["op"]["k"] not in ("assign", "toolong"):
                 continue
             nedges += 1
@@ -401,7 +412,8 @@ def run(ctx):
                           "only_faithful": nf, "only_fixed": nx}
     ctx.cov["rule"] = ("distinct = distinct (operation, type, contents/lengths) executed on real cdata; all are "
                        "non-trivial (a store, a construction or a read of a character array)")
-    ctx.cov["exhaustive"] = True     # every init state, Assign edge and read of the dumped graph was executed
+    ctx.cov["exhaustive"] = True     # every init state and every Assign / SetUnit edge of the dumped graph was executed
+                                     # (thorough: also every read; quick samples the reads through the pointer view)
     ctx.assumptions += ["raw units are written/read through ffi.buffer (byte copy), independent of the string paths",
                         "32-bit units above 0x10FFFF and ffi.string with maxlen beyond an unterminated array are "
                         "outside the statement and not generated",
